@@ -35,10 +35,12 @@ def env():
         open(d + "/k.pem", "wb").write(k)
         ctx = create_pyopenssl_server_context(d + "/c.pem", d + "/k.pem", True)
         clients = []
-        for i, key in enumerate([ec.generate_private_key(ec.SECP256R1()), ed25519.Ed25519PrivateKey.generate(), rsa.generate_private_key(65537, 2048)]):
-            name = x509.Name([x509.NameAttribute(NameOID.COMMON_NAME, f"pumpclient{i}")])
+        # the 4th client certificate is a look-alike of the 1st: same subject, issuer and serial number, another key
+        for i, key in enumerate([ec.generate_private_key(ec.SECP256R1()), ed25519.Ed25519PrivateKey.generate(), rsa.generate_private_key(65537, 2048),
+                                 ec.generate_private_key(ec.SECP256R1())]):
+            name = x509.Name([x509.NameAttribute(NameOID.COMMON_NAME, f"pumpclient{i % 3}")])
             now = datetime.datetime(2026, 1, 1)
-            cert = (x509.CertificateBuilder().subject_name(name).issuer_name(name).public_key(key.public_key()).serial_number(2000 + i)
+            cert = (x509.CertificateBuilder().subject_name(name).issuer_name(name).public_key(key.public_key()).serial_number(2000 + i % 3)
                     .not_valid_before(now).not_valid_after(now + datetime.timedelta(days=3650))
                     .sign(key, None if isinstance(key, ed25519.Ed25519PrivateKey) else hashes.SHA256()))
             cp, kp = f"{d}/cl{i}.pem", f"{d}/cl{i}.key"
